@@ -154,7 +154,7 @@ def C07_depth_cutoff_sound_full : Prop :=
   ∀ (T : Transc ℝ), T.sqrt = Real.sqrt → T.sin = Real.sin → T.cos = Real.cos → T.tan = Real.tan → T.acos = Real.arccos →
     T.pi = Real.pi → 0 < T.eps →
     ∀ (f : LineFeature ℝ) (ctx : Ctx ℝ) (q : Query ℝ) (h : LineHit ℝ),
-      @LineFeature.WellFormed ℝ f →
+      @LineFeature.WellFormed ℝ (fieldScalar T) f →
       (∀ sec ∈ f.sections, ∀ s ∈ sec, s.length < T.inf) →
       @LineFeature.coversBody ℝ (fieldScalar T) f ctx q = .ok (some h) →
       q.depth - f.minDepth ≤ @LineFeature.maxTotalLength ℝ (fieldScalar T) f + @LineFeature.maxThickness ℝ (fieldScalar T) f
